@@ -257,3 +257,13 @@ package git
 //@ func FormatGitDate
 //@   props C05
 //@   at call (time.Time).Format:1 assert arg0__ == tm && arg1__ == "Mon Jan 2 15:04:05 2006 -0700"
+
+// C04 / C13: one record of `git ls-tree -l -z` is "<mode> <type> <oid> <size>" up
+// to the *first* TAB and the path - which may itself contain TABs - after it;
+// the blob that is reported carries exactly that path.
+//@ func (*LsTreeScanner).next
+//@   props C04 C13
+//@   requires @inv s != nil && s.s != nil
+//@   modifies fresh, ghost lasttext[s.s]
+//@   at call strings.SplitN:2 assert arg0__ == str_before(lasttext(s.s), "\t") && arg1__ == " " && arg2__ == 4
+//@   ensures result0 != nil ==> result0.Filename == str_after(lasttext(s.s), "\t")
